@@ -63,6 +63,9 @@ def add_dicts(rng, spec):
                 a['max_cap'] = {'start': [far0, mid], 'end': [mid, str(pd.Timestamp(g['end']) + pd.Timedelta(days=400))], 'values': [hi, max(lo, hi * 0.5)]}
             if rng.random() < 0.3:
                 a['extra_costs'] = {'start': [far0], 'values': [0.4]}
+            elif rng.random() < 0.2 and a.get('price'):
+                # costs taken from the price data by name, no market price of its own (fee series)
+                a['extra_costs'] = a['price']; a['price'] = None
             elif rng.random() < 0.25:
                 # an equidistant list of period starts (yearly steps around the horizon), implicit ends - typically handed over as a DatetimeIndex
                 y0 = (pd.Timestamp(g['start']) - pd.Timedelta(days=730)).normalize()
@@ -216,7 +219,12 @@ def run_case(rng, tier, case):
                     o = P.setup_optim_problem(b.prices, b.timegrid)
                     k_ = int(rng.integers(1, max(2, b.timegrid.T)))
                     samp = [{k: np.asarray(v) for k, v in gen.gen_prices(rng, b.timegrid.T, keys).items()} for _ in range(2)]
-                    P.create_cost_samples(samp, b.timegrid)
+                    cs_ = P.create_cost_samples(samp, b.timegrid)
+                    # each cost sample is the cost vector of the problem for THAT price set, whatever was sampled before it
+                    for q_, (sm_, cv_) in enumerate(zip(samp, cs_)):
+                        direct = np.asarray(P.setup_optim_problem(sm_, b.timegrid, costs_only=True), float)
+                        case.check('purity.cost_sample_equals_direct_cost_vector', direct.shape == np.asarray(cv_).shape and bool(np.array_equal(direct, np.asarray(cv_, float))), sample=q_,
+                                   worst=float(np.max(np.abs(direct - np.asarray(cv_, float)))) if direct.shape == np.asarray(cv_).shape and len(direct) else None)
                     SLP.make_slp(o, P, b.timegrid, b.timegrid.timepoints[k_], samp)
                 elif op == 'fix_window_call':
                     # a user-supplied fix_time_window dictionary (window given as a date, previous solution longer than this problem - the documented
@@ -257,6 +265,32 @@ def run_case(rng, tier, case):
                 executed += 1
             hist.append([op, g2, outcome])
             case.feature('op:' + op)
+        # ---- the documented asset-level route first (before the portfolio-level probe re-aligns all grids): set_timegrid(grid), then set-up WITHOUT
+        #      grid argument - on the used and on freshly built objects
+        if rng.random() < 0.4:
+            try:
+                b3 = build(spec)
+            except Exception:
+                b3 = None
+            if b3 is not None:
+                b4 = build(spec)
+                for au, af, ag in zip(P.assets, b3.portfolio.assets, b4.portfolio.assets):
+                    try:
+                        sfa = Snap(ag.setup_optim_problem(b4.prices, build_timegrid(spec['grid'])))          # reference: fresh object, grid given explicitly
+                    except Exception:
+                        continue
+                    try:
+                        af.set_timegrid(build_timegrid(spec['grid'])); sff = Snap(af.setup_optim_problem(b3.prices))
+                        dq = problem_diff(sff, sfa, rtol=1e-12, compare_mapping=True)
+                        case.check('purity.asset_alone_without_grid_argument_same_as_fresh', dq is None, asset=type(af).__name__, fresh_object=True, diff=dq)
+                    except Exception as e:
+                        case.check('purity.asset_alone_without_grid_argument_same_as_fresh', False, asset=type(af).__name__, fresh_object=True, error='%s: %s' % (type(e).__name__, str(e)[:160]))
+                    try:
+                        au.set_timegrid(build_timegrid(spec['grid'])); sua = Snap(au.setup_optim_problem(b.prices))
+                        da = problem_diff(sua, sfa, rtol=1e-12, compare_mapping=True)
+                        case.check('purity.asset_alone_without_grid_argument_same_as_fresh', da is None, asset=type(au).__name__, history=hist, diff=da)
+                    except Exception as e:
+                        case.check('purity.asset_alone_without_grid_argument_same_as_fresh', False, asset=type(au).__name__, history=hist, error='%s: %s' % (type(e).__name__, str(e)[:160]))
         # ---- probe on the used objects vs fresh objects
         probe_exc = None; fresh_exc = None
         try:
